@@ -15,13 +15,14 @@ B == INSTANCE TonBag
 
 \* hist: the calls made so far - kept only when Record is TRUE (simulation runs that export behaviours for replay into the
 \* library); exhaustive runs leave it empty so that it does not multiply states
-VARIABLES objs, typed, steps, hist
-vars == <<objs, typed, steps, hist>>
+\* gone: how many objects have been forgotten (identifiers are never reused; only refusal steps of recorded runs forget)
+VARIABLES objs, typed, steps, hist, gone
+vars == <<objs, typed, steps, hist, gone>>
 
 Bld == {i \in DOMAIN objs : objs[i].k = "builder"}
 Cel == {i \in DOMAIN objs : objs[i].k = "cell"}
 Slc == {i \in DOMAIN objs : objs[i].k = "slice"}
-NewId == Cardinality(DOMAIN objs) + 1
+NewId == Cardinality(DOMAIN objs) + gone + 1
 
 UVals == {0, 1, 2, 5, 7, 8, 15, 16}
 SVals == {-9, -8, -5, -1, 0, 1, 4, 7, 8}
@@ -67,11 +68,12 @@ Derive == {[op |-> "end_cell", obj |-> b, new |-> NewId] : b \in Bld}
      \cup {[op |-> "store_slice", obj |-> b, ref |-> s] : b \in Bld, s \in Slc}
      \cup {[op |-> "new_builder", new |-> NewId]}
 
-Init == objs = [i \in {} |-> 0] /\ typed = [i \in {} |-> <<>>] /\ steps = 0 /\ hist = <<>>
+Init == objs = [i \in {} |-> 0] /\ typed = [i \in {} |-> <<>>] /\ steps = 0 /\ hist = <<>> /\ gone = 0
 Apply(c, e) == /\ e.ok = "yes"
                /\ objs' = e.objs
                /\ steps' = steps + 1
                /\ hist' = IF Record THEN Append(hist, c) ELSE hist
+               /\ gone' = gone
 StepStore == \E b \in Bld : \E c \in Stores(b) :
                  LET e == B!Do(objs, c) IN
                  /\ Apply(c, e)
@@ -88,7 +90,17 @@ StepDerive == \E c \in Derive :
                                \* composite stores make the builder's history untyped
                                [] c.op \in {"store_cell", "store_slice"} -> [i \in (DOMAIN typed) \ {c.obj} |-> typed[i]]
                                [] OTHER -> typed
-Next == steps < MaxSteps /\ (StepStore \/ StepRead \/ StepDerive)
+\* a call from the menu whose guard is FALSE (value does not fit its width, no room, not enough left to read): the call is made
+\* and must be refused; what it leaves in its target is unspecified, so the target is forgotten (an explicit call of the
+\* behaviour).  Only in recorded runs: these steps exist to be replayed into the library.
+StepRefuse == /\ Record
+              /\ \E c \in UNION {Stores(b) : b \in Bld} \cup UNION {Reads(s) : s \in Slc} :
+                    /\ B!Do(objs, c).ok = "no"
+                    /\ objs' = [i \in (DOMAIN objs) \ {c.obj} |-> objs[i]]
+                    /\ typed' = [i \in (DOMAIN typed) \ {c.obj} |-> typed[i]]
+                    /\ hist' = hist \o <<c, [op |-> "forget", ids |-> <<c.obj>>]>>
+                    /\ gone' = gone + 1 /\ steps' = steps + 1
+Next == steps < MaxSteps /\ (StepStore \/ StepRead \/ StepDerive \/ StepRefuse)
 Spec == Init /\ [][Next]_vars
 
 \* ---- invariants
